@@ -484,4 +484,81 @@ def Run.step (c : Cfg) (r : Run) (op : Op) : Run :=
 def runRequest (c : Cfg) (ops : List Op) (s : St) : Run :=
   ops.foldl (Run.step c) { st := s, failed := false }
 
+/-! ### the prologue of a request (`translateUpdate` / `translatePrologue`)
+
+  `Update ::= Prologue ( Update1 ( ';' Update )? )?`: declarations may precede every operation; ONE prologue
+  object is threaded through the whole request (`prologue = translatePrologue(p, base, initNs, prologue)`),
+  so a BASE or PREFIX declared before operation k is in force for every later operation until redeclared.
+  IRIs are owned by the harness: what a relative reference denotes under a base, what namespace a relative
+  prefix IRI denotes, and what a prefixed name denotes are tables it supplies (computed with its own
+  RFC 3986 resolver); the model decides WHICH base / namespace is in force. -/
+
+structure Prologue where
+  base : Option Nat
+  prefixes : List (Nat × Nat)        -- prefix ↦ namespace, latest declaration first
+
+inductive Decl
+  | base (b : Nat)
+  | prefix (p ns : Nat)
+  | prefixRel (p ref : Nat)          -- PREFIX p: <relative reference>
+  deriving DecidableEq, Repr
+
+structure Tables where
+  rel : List ((Nat × Nat) × Nat)     -- (base, reference) ↦ IRI
+  ns : List ((Nat × Nat) × Nat)      -- (base, reference) ↦ namespace
+  pn : List ((Nat × Nat) × Nat)      -- (namespace, local name) ↦ IRI
+
+def tlookup : List ((Nat × Nat) × Nat) → Nat × Nat → Option Nat
+  | [], _ => none
+  | (k, v) :: rest, x => if k = x then some v else tlookup rest x
+
+/-- `translatePrologue` for one declaration -/
+def Prologue.declare (T : Tables) (p : Prologue) : Decl → Prologue
+  | .base b => { p with base := some b }
+  | .prefix x ns => { p with prefixes := (x, ns) :: p.prefixes }
+  | .prefixRel x r =>
+    match p.base with
+    | some b =>
+      match tlookup T.ns (b, r) with
+      | some ns => { p with prefixes := (x, ns) :: p.prefixes }
+      | none => p
+    | none => p
+
+/-- an IRI as written -/
+inductive Spelled
+  | abs (n : Nat)
+  | rel (r : Nat)
+  | pname (p l : Nat)
+  deriving DecidableEq, Repr
+
+/-- `Prologue.absolutize` / `resolvePName` -/
+def Prologue.resolve (T : Tables) (p : Prologue) : Spelled → Option Nat
+  | .abs n => some n
+  | .rel r =>
+    match p.base with
+    | some b => tlookup T.rel (b, r)
+    | none => none
+  | .pname x l =>
+    match alookup p.prefixes x with
+    | some ns => tlookup T.pn (ns, l)
+    | none => none
+
+/-- a running request together with its prologue -/
+structure PRun where
+  run : Run
+  pro : Prologue
+
+/-- one element of a request: the declarations written before the operation, and the operation as a function
+    of the prologue in force (its IRIs are resolved against it; `none` = a name that cannot be resolved) -/
+abbrev PElem := List Decl × (Prologue → Option Op)
+
+def PRun.step (c : Cfg) (T : Tables) (r : PRun) (e : PElem) : PRun :=
+  let pro := e.1.foldl (Prologue.declare T) r.pro
+  match e.2 pro with
+  | some op => { run := r.run.step c op, pro := pro }
+  | none => { run := { r.run with failed := true }, pro := pro }
+
+def runPRequest (c : Cfg) (T : Tables) (es : List PElem) (r : PRun) : PRun :=
+  es.foldl (PRun.step c T) r
+
 end RV.C10
